@@ -38,6 +38,8 @@ func pathText(w []string, rot int) string {
 			sb.WriteString("é")
 		case "q":
 			sb.WriteByte('"')
+		case "b":
+			sb.WriteByte('\\')
 		case "s":
 			sb.WriteByte(' ')
 		default:
@@ -237,6 +239,19 @@ func init() {
 						line = prefix + txt
 						if c.V == "valid" {
 							wantAddr = txt[1 : len(txt)-1]
+							if strings.HasPrefix(wantAddr, "\"") {
+								// quoted-string local part: the content with the quoted-pairs resolved
+								var sb strings.Builder
+								j := 1
+								for j < len(wantAddr) && wantAddr[j] != '"' {
+									if wantAddr[j] == '\\' {
+										j++
+									}
+									sb.WriteByte(wantAddr[j])
+									j++
+								}
+								wantAddr = sb.String() + wantAddr[j+1:]
+							}
 						}
 					} else {
 						wantAddr = "Pq.Rs@X.Test"
